@@ -27,6 +27,10 @@
 (*         created: resources whose Default::default() ran, in order;      *)
 (*         calls: resources whose CUSTOM setup handler ran, in order       *)
 (*  exec   w0, out, pres, created, calls, after, w1   World::exec          *)
+(* A fetch event also names its execution context (ctx: normal control     *)
+(* flow | the value is dropped by an unwinding, caught panic | the fetch   *)
+(* is issued from a destructor running because of a caught panic); the     *)
+(* expectation is the same in all of them, so the spec does not read it.   *)
 (***************************************************************************)
 EXTENDS SysData, TLC, Json, IOUtils
 
@@ -164,12 +168,18 @@ TrExec ==
   /\ phase' = "exec"
   /\ UNCHANGED <<nres, dflt, rep, sh>>
 
-Known == {"reset", "decl", "fetch", "setup", "exec"}
+\* the harness gave up on a case (its own failure): a tool problem, never a verdict
+TrDied ==
+  /\ Is("died")
+  /\ wf' = FALSE
+  /\ UNCHANGED <<nres, dflt, rep, ok, drift>> /\ UNCHANGED vars
+
+Known == {"reset", "decl", "fetch", "setup", "exec", "died"}
 TrSkip ==
   /\ l <= Len(Rec) /\ Ev.ev \notin Known /\ l' = l + 1
   /\ UNCHANGED <<nres, dflt, rep, ok, wf, drift>> /\ UNCHANGED vars
 
-TNext == TrReset \/ TrDecl \/ TrFetch \/ TrSetup \/ TrExec \/ TrSkip
+TNext == TrReset \/ TrDecl \/ TrFetch \/ TrSetup \/ TrExec \/ TrDied \/ TrSkip
 Spec == Init /\ [][TNext]_<<tvars, vars>>
 
 \* ---- property invariants ------------------------------------------------------------
